@@ -390,6 +390,22 @@ Arguments mkMat {C}.
 Arguments m_height {C}.
 Arguments m_width {C}.
 Arguments m_rows {C}.
+Arguments mkState {C}.
+Arguments unit_mode {C}.
+Arguments first_row {C}.
+Arguments last_row {C}.
+Arguments first_column {C}.
+Arguments last_column {C}.
+Arguments first_zone {C}.
+Arguments last_zone {C}.
+Arguments operand {C}.
+Arguments name_l {C}.
+Arguments name_kind {C}.
+Arguments colour {C}.
+Arguments default {C}.
+Arguments matrix {C}.
+Arguments out {C}.
+Arguments initial {C}.
 Arguments ESet {C}.
 Arguments EZone {C}.
 Arguments EMatrix {C}.
